@@ -4,8 +4,10 @@ import (
 	"bufio"
 	"context"
 	"encoding/json"
+	"errors"
 	"math/rand"
 	"os"
+	"strings"
 	"sync"
 	"testing"
 	"testing/synctest"
@@ -69,7 +71,11 @@ func genRdCfg(r *rand.Rand) (rdCfg, int64, []int64, int) {
 			fvals = append(fvals, []int64{-1, -1, 0, 500, 2000}[r.Intn(5)])
 		}
 	}
-	return c, base / 1000, fvals, 3 + r.Intn(6)
+	maxRetries := 3 + r.Intn(6)
+	if c.Kind == "backoff" && c.Maxdur == 0 && r.Intn(6) == 0 {
+		maxRetries = 70 // a long run of failures: the backoff stays at maxDelay however long it lasts
+	}
+	return c, base / 1000, fvals, maxRetries
 }
 
 func init() {
@@ -78,6 +84,10 @@ func init() {
 		out, err := os.Create(os.Getenv("VH_OUT"))
 		if err != nil {
 			t.Fatal(err)
+		}
+		live, _ := os.Create(os.Getenv("VH_OUT") + ".live")
+		if live != nil {
+			defer live.Close()
 		}
 		w := bufio.NewWriterSize(out, 1<<20)
 		enc := func(v any) { b, _ := json.Marshal(v); w.Write(b); w.WriteByte('\n') }
@@ -94,124 +104,164 @@ func init() {
 			perm := r.Perm(6)
 			var lines []any
 			lines = append(lines, M{"ev": "Config", "cfg": c, "unit_ns": unitNs, "maxRetries": maxRetries})
-			synctest.Test(t, func(t *testing.T) {
-				b := retrypolicy.Builder[string]()
-				// the configuration calls in a random order: none of them may depend on what was called before
-				steps := []func(){func() { b.WithMaxRetries(maxRetries) }}
-				// every other configuration first configures the OTHER delay kinds and then the one it wants: the later call replaces
-				// what the earlier ones set (WithBackoff clears a random delay, WithRandomDelay clears fixed delay and backoff)
-				prelude := i%2 == 1
-				switch c.Kind {
-				case "fixed":
-					steps = append(steps, func() {
-						if prelude {
-							b.WithBackoff(7*u, 700*u).WithRandomDelay(3*u, 9*u)
-						}
-						b.WithDelay(time.Duration(c.D) * u)
-					})
-				case "backoff":
-					steps = append(steps, func() {
-						if prelude {
-							b.WithRandomDelay(3*u, 9*u)
-						}
-						b.WithBackoffFactor(time.Duration(c.D)*u, time.Duration(c.Maxd)*u, float32(c.Fp)/float32(c.Fq))
-					})
-				case "random":
-					steps = append(steps, func() {
-						if prelude {
-							b.WithBackoff(7*u, 700*u)
-						}
-						b.WithRandomDelay(time.Duration(c.Dmin)*u, time.Duration(c.Dmax)*u)
-					})
-				}
-				if c.Jit != 0 {
-					steps = append(steps, func() { b.WithJitter(time.Duration(c.Jit) * u) })
-				}
-				if c.Jfp != 0 {
-					steps = append(steps, func() { b.WithJitterFactor(float32(c.Jfp) / 100) })
-				}
-				if c.Maxdur != 0 {
-					steps = append(steps, func() { b.WithMaxDuration(time.Duration(c.Maxdur) * u) })
-				}
-				for _, j := range perm {
-					if j < len(steps) {
-						steps[j]()
+			func() {
+				// a policy that never comes back (a delay that overflowed into "forever") ends the bubble with a deadlock panic:
+				// that is a finding about the configuration at hand, not a reason to stop
+				defer func() {
+					if p := recover(); p != nil {
+						emit(M{"k": "problem", "what": "panic: " + strings.SplitN(strings.TrimSpace(toString(p)), "\n", 2)[0], "cfg": c, "maxRetries": maxRetries})
+						lines = lines[:1]
 					}
-				}
-				// one or (every third configuration) two overlapping executions through the SAME policy instance, each with its
-				// own trace: what one execution schedules must not depend on the other
-				type xstate struct {
-					lines   []any
-					fcall   int
-					lastFv  int64
-					schedAt time.Time
-					pending bool
-					calls   int
-				}
-				nx := 1
-				if i%3 == 2 {
-					nx = 2
-				}
-				xs := make([]*xstate, nx)
-				for k := range xs {
-					xs[k] = &xstate{lastFv: -1, lines: []any{lines[0]}}
-				}
-				type rdKey struct{}
-				of := func(ctx context.Context) *xstate { return xs[ctx.Value(rdKey{}).(int)] }
-				if fvals != nil {
-					b.WithDelayFunc(func(exec failsafe.ExecutionAttempt[string]) time.Duration {
-						st := of(exec.Context())
-						st.lastFv = fvals[st.fcall%len(fvals)]
-						st.fcall++
-						if st.lastFv == -1 {
-							return -1
-						}
-						return time.Duration(st.lastFv) * u
-					})
-				}
-				b.OnRetryScheduled(func(e failsafe.ExecutionScheduledEvent[string]) {
-					st := of(e.Context())
-					q, rz := qr(e.Delay, u)
-					if e.Delay < 0 {
-						q, rz = -1-int64(-e.Delay/u), false
-					}
-					el, _ := qr(e.ElapsedTime(), u)
-					st.lines = append(st.lines, M{"ev": "Sched", "q": q, "rz": rz, "el": el, "fv": st.lastFv, "retries": e.Retries(), "at": 0})
-					st.lastFv = -1
-					st.schedAt = time.Now()
-					st.pending = true
-				})
-				pol := b.Build()
-				var wg sync.WaitGroup
-				for k := range xs {
-					wg.Add(1)
-					go func(k int) {
-						defer wg.Done()
-						st := xs[k]
-						if k > 0 {
-							time.Sleep(durs[1]/2 + 3*u/2) // the second execution starts while the first one is under way
-						}
-						failsafe.NewExecutor[string](pol).WithContext(context.WithValue(context.Background(), rdKey{}, k)).Get(func() (string, error) {
-							if st.pending {
-								gq, grz := qr(time.Since(st.schedAt), u)
-								st.lines = append(st.lines, M{"ev": "Start", "gq": gq, "grz": grz})
-								st.pending = false
+				}()
+				synctest.Test(t, func(t *testing.T) {
+					b := retrypolicy.Builder[string]()
+					// the configuration calls in a random order: none of them may depend on what was called before
+					steps := []func(){func() { b.WithMaxRetries(maxRetries) }}
+					// every other configuration first configures the OTHER delay kinds and then the one it wants: the later call replaces
+					// what the earlier ones set (WithBackoff clears a random delay, WithRandomDelay clears fixed delay and backoff)
+					prelude := i%2 == 1
+					switch c.Kind {
+					case "fixed":
+						steps = append(steps, func() {
+							if prelude {
+								b.WithBackoff(7*u, 700*u).WithRandomDelay(3*u, 9*u)
 							}
-							d := durs[(st.calls+k)%len(durs)]
-							st.calls++
-							if d > 0 {
-								time.Sleep(d)
-							}
-							return "", errE1
+							b.WithDelay(time.Duration(c.D) * u)
 						})
-					}(k)
-				}
-				wg.Wait()
-				lines = nil
-				for _, st := range xs {
-					lines = append(lines, st.lines...)
-				}
-			})
+					case "backoff":
+						steps = append(steps, func() {
+							if prelude {
+								b.WithRandomDelay(3*u, 9*u)
+							}
+							b.WithBackoffFactor(time.Duration(c.D)*u, time.Duration(c.Maxd)*u, float32(c.Fp)/float32(c.Fq))
+						})
+					case "random":
+						steps = append(steps, func() {
+							if prelude {
+								b.WithBackoff(7*u, 700*u)
+							}
+							b.WithRandomDelay(time.Duration(c.Dmin)*u, time.Duration(c.Dmax)*u)
+						})
+					}
+					if c.Jit != 0 {
+						steps = append(steps, func() { b.WithJitter(time.Duration(c.Jit) * u) })
+					}
+					if c.Jfp != 0 {
+						steps = append(steps, func() { b.WithJitterFactor(float32(c.Jfp) / 100) })
+					}
+					if c.Maxdur != 0 {
+						steps = append(steps, func() { b.WithMaxDuration(time.Duration(c.Maxdur) * u) })
+					}
+					for _, j := range perm {
+						if j < len(steps) {
+							steps[j]()
+						}
+					}
+					// one or (every third configuration) two overlapping executions through the SAME policy instance, each with its
+					// own trace: what one execution schedules must not depend on the other
+					type xstate struct {
+						lines   []any
+						fcall   int
+						lastFv  int64
+						schedAt time.Time
+						pending bool
+						calls   int
+						lastErr error
+					}
+					// every other delay function reads the failure it is asked about (LastError of the attempt that just failed):
+					// 500 units after E1, 2000 after E2; the trace carries what THAT failure calls for
+					byErr := fvals != nil && i%2 == 0
+					valFor := func(err error) int64 {
+						if errors.Is(err, errE1) {
+							return 500
+						}
+						return 2000
+					}
+					nx := 1
+					if i%3 == 2 {
+						nx = 2
+					}
+					// (the first execution's events also go straight to <out>.live, unbuffered: should the process die - the Go runtime has
+					// been seen to throw inside a bubble once a delay overflowed - what was observed up to then can still be validated)
+					if live != nil {
+						b0, _ := json.Marshal(lines[0])
+						live.Write(append(b0, '\n'))
+					}
+					xs := make([]*xstate, nx)
+					for k := range xs {
+						xs[k] = &xstate{lastFv: -1, lines: []any{lines[0]}}
+					}
+					type rdKey struct{}
+					of := func(ctx context.Context) *xstate { return xs[ctx.Value(rdKey{}).(int)] }
+					if fvals != nil {
+						b.WithDelayFunc(func(exec failsafe.ExecutionAttempt[string]) time.Duration {
+							st := of(exec.Context())
+							if byErr {
+								return time.Duration(valFor(exec.LastError())) * u
+							}
+							st.lastFv = fvals[st.fcall%len(fvals)]
+							st.fcall++
+							if st.lastFv == -1 {
+								return -1
+							}
+							return time.Duration(st.lastFv) * u
+						})
+					}
+					b.OnRetryScheduled(func(e failsafe.ExecutionScheduledEvent[string]) {
+						st := of(e.Context())
+						q, rz := qr(e.Delay, u)
+						if e.Delay < 0 {
+							q, rz = -1-int64(-e.Delay/u), false
+						}
+						el, _ := qr(e.ElapsedTime(), u)
+						if byErr {
+							st.lastFv = valFor(st.lastErr)
+						}
+						st.lines = append(st.lines, M{"ev": "Sched", "q": q, "rz": rz, "el": el, "fv": st.lastFv, "retries": e.Retries(), "at": 0})
+						if live != nil && st == xs[0] {
+							b0, _ := json.Marshal(st.lines[len(st.lines)-1])
+							live.Write(append(b0, '\n'))
+						}
+						st.lastFv = -1
+						st.schedAt = time.Now()
+						st.pending = true
+					})
+					pol := b.Build()
+					var wg sync.WaitGroup
+					for k := range xs {
+						wg.Add(1)
+						go func(k int) {
+							defer wg.Done()
+							st := xs[k]
+							if k > 0 {
+								time.Sleep(durs[1]/2 + 3*u/2) // the second execution starts while the first one is under way
+							}
+							failsafe.NewExecutor[string](pol).WithContext(context.WithValue(context.Background(), rdKey{}, k)).Get(func() (string, error) {
+								if st.pending {
+									gq, grz := qr(time.Since(st.schedAt), u)
+									st.lines = append(st.lines, M{"ev": "Start", "gq": gq, "grz": grz})
+									st.pending = false
+								}
+								d := durs[(st.calls+k)%len(durs)]
+								st.calls++
+								if d > 0 {
+									time.Sleep(d)
+								}
+								st.lastErr = errE1
+								if (st.calls+k)%3 == 0 {
+									st.lastErr = errE2
+								}
+								return "", st.lastErr
+							})
+						}(k)
+					}
+					wg.Wait()
+					lines = nil
+					for _, st := range xs {
+						lines = append(lines, st.lines...)
+					}
+				})
+			}()
 			for _, l := range lines {
 				enc(l)
 			}
